@@ -1,0 +1,11 @@
+//go:build verif
+
+package storage
+
+// Hook for the out-of-tree verification harness (build tag verif), add-only.
+
+// VerifAll returns every BundleItem of the Store, pending or not.
+func (s *Store) VerifAll() (bis []BundleItem, err error) {
+	err = s.bh.Find(&bis, nil)
+	return
+}
